@@ -12,9 +12,12 @@ tie     : (T) tools/gen_crc_tables.py  -> XmpModel/Gen/CrcTables.lean (static ta
               harness/c09_gates.c real decrunch of gzip / ARC / ArcFS / LZX archives (intact and
               faulted) with the entropy decoders and the exclusion matcher intercepted at link
               level, vs the Lean gate models run with exactly those functions as parameters;
-              bzip2 / zip gate models vs the real library on faults in their check fields, with the
-              payload / python's zlib as decoder; model CRCs vs the check fields written by
-              zlib, libbz2, liblzma
+              the same two-sided way: the real xz depacker (spies on xz_dec_lzma2_reset/_run) vs the
+              byte-level container model xzDepack, the real zip reader (spy on tinfl_decompress) vs
+              the whole-reader model zipDepack; bzip2 gate model vs the real library on faults in every
+              block-header CRC and the stream CRC (single- and multi-block); model CRCs vs the check
+              fields written by zlib, libbz2, liblzma
+corpus  : corpus/C09/*.json (tools/c09_corpus.py): minimised single-fault regression cases, run first
 search  : the direct oracle (harness/c09_corrupt.c): archives of synthetic and corpus payloads
           written by independent encoders, loaded BY PATH; every single-bit flip / byte substitution /
           truncation must fail to load or yield the original payload's MD5.
@@ -42,27 +45,49 @@ MANIFEST = dict(
          "C09_crc16_detects, C09_bzcrc_detects); and, for every format's accept/reject logic modelled with the entropy decoder as "
          "an arbitrary parameter, that acceptance implies stored check = check(output) and stored length = length "
          "(C09_gate_gzip/zip/bzip2/xz/arc/arcfs/lzx) and hence that an output within one burst of the packed payload, or an intact "
-         "output under a damaged check/length field, is always refused (C09_reject_*). Models are tied to /repo on every run by "
-         "generated tables + differential correspondence (real CRC routines; real gzip/ARC/ArcFS/LZX depackers with link-level "
-         "spies on the decoders; bzip2/zip gates on field faults) and a direct oracle that loads every faulted archive by path "
-         "and compares xmp_module_info.md5 with the packed payload's MD5.",
+         "output under a damaged check/length field, is always refused (C09_reject_*). Second wave: bzip2's stream CRC is live "
+         "(generated fact Gen.bzStreamCrcDead = false, C09_bzip2_stream_crc_live) and compared: C09_gate_bzip2_stream (accept => stored "
+         "stream CRC = combination rotl(total,1)^blockCRC of all block CRCs), the combination rule is injective in both arguments so "
+         "one changed block changes the stream CRC (C09_bzip2_combine_injective), C09_reject_bzip2_stream, "
+         "C09_reject_bzip2_crc_field_flip (one flipped bit in the stream CRC or in any block header CRC is refused); the xz "
+         "CONTAINER is modelled byte-level as xz_dec_stream.c walks it (stream header magic/flags/CRC-32, block headers with size "
+         "byte, CRC-32, flags, VLI size fields, filter flags, header padding, dec_block's size comparisons, block padding, Check "
+         "field, multi-block loop, Index count/records/padding/size hash/CRC-32, stream footer CRC-32/backward size/flags = header "
+         "flags) for ANY LZMA2 decoder: C09_gate_xz_stream (accept => every stored CRC-32 equals the computed one and every block's "
+         "Check = crc32 of that block's output), C09_gate_xz_stream_payload, C09_reject_xz_stream_burst / _field / _flags; the zip "
+         "model now is the WHOLE miniz reader (EOCD search from the end, zip64 locator/record, central-directory walk with its "
+         "sanity tests, member selection, file stat incl. zip64 extra field, local file header, extract): C09_gate_zip_archive, "
+         "C09_reject_zip_archive, C09_reject_zip_archive_field. Models are tied to /repo on every run by generated tables + "
+         "differential correspondence (real CRC routines; real gzip/ARC/ArcFS/LZX/xz/zip depackers run on intact and faulted "
+         "archives with link-level spies on the entropy decoders (tinfl, arc_unpack, lzx_unpack, xz_dec_lzma2_reset/run) and the "
+         "exclusion matcher, two-sided comparison of verdict and output with the Lean models run on the same decoder tables; "
+         "bzip2 gate on faults in every block-header CRC and the stream CRC of single- and multi-block streams) and a direct oracle "
+         "that loads every faulted archive by path and compares xmp_module_info.md5 with the packed payload's MD5. A regression "
+         "corpus of minimised single-fault cases (corpus/C09, tools/c09_corpus.py) runs first.",
     note="Partial by nature: the entropy decoders (inflate, bzip2 BWT/Huffman, LZMA2, ARC LZW/Huffman, LZX) are parameters, not "
          "verified. RESIDUAL CLASS OUTSIDE THE THEOREMS: damage that a decoder spreads over more than one <=32/16-bit burst and whose "
          "check collides (2^-32 / 2^-16 per case) cannot be excluded by any proof; the oracle classifies an accepted different "
          "payload whose CRC-16 genuinely equals the stored field as `residual-crc16-collision` (counted, not a violation). ArcFS "
          "members with stored CRC 0 are unchecked by design (hypothesis of C09_reject_arcfs; generators only emit non-zero CRCs). "
-         "zipExtract models mz_zip_reader_extract_to_mem_no_alloc1 given the central-directory record; its comp_size = 0 early "
-         "return (no CRC compare) is excluded by hypothesis compSize != 0 -- in the real reader mz_zip_reader_init refuses "
-         "`decomp_size && !comp_size` records first (outside the model; tie for zip is one-sided: real accepts => model accepts). "
-         "FINDING: bunzip2.c never compares the stored bzip2 STREAM CRC (write_bunzip_data returns gotcount at the end-of-stream "
-         "header; generated fact Gen.bzStreamCrcDead, theorem C09_bzip2_stream_crc_unchecked, fix in "
-         "proposed_fixes/c09_bzip2_stream_crc.diff); block CRCs still gate every byte, so the quantified property holds. "
-         "xz gate is modelled for single-block CRC-32 streams at field level (tie: field-fault correspondence, oracle, model CRC vs "
-         "liblzma's fields); xz check types none/CRC64/SHA256 carry no implemented check and are out of scope. Archives with "
-         "several loadable members (repo lzxmerge) are outside the oracle: damage to one entry legitimately selects the next, "
-         "intact and checked, member. Correspondence is sampled, not exhaustive.",
+         "zip: miniz never reads the local header's CRC/size fields nor a data descriptor (the central directory is the only "
+         "authority; modelled and tied as such); a member with compressed size 0 is returned without CRC compare "
+         "(zipExtract) -- mz_zip_reader_init refuses `decomp_size && !comp_size` records, so C09_gate_zip_archive's CRC conclusion "
+         "holds for every record whose 32-bit size fields are not the zip64 escape 0xFFFFFFFF and whose declared size is non-zero; "
+         "zip64-escaped sizes (taken from the extra field) are modelled and tied (repo ponylips.64.zip) but get only the "
+         "compSize != 0 form of the theorem; allocation failures and the 512 MiB output ceilings are not modelled (they only add "
+         "ways to fail). bzip2: the model takes the decoded blocks (header CRC, data) and the stored stream CRC; the bit-level "
+         "framing/Huffman/BWT is the decoder parameter; multi-block tie splits the payload by matching an independent CRC "
+         "against libbz2's block header CRCs. xz: rejection theorems are stated over the parse of the damaged file (no accepted "
+         "parse contains a CRC-protected region within one burst of what its stored CRC vouches for; no stored field differs "
+         "from its computed value); a flipped Block Header Size byte changes the region the header CRC covers and is outside the "
+         "burst theorem (covered by the oracle and the two-sided correspondence). Check types none/CRC64/SHA-256 carry no "
+         "implemented check: modelled (Check field skipped) and tied, outside the property and the oracle. The old field-level "
+         "xzAccept and ZipStat-level zipExtract models and their theorems are kept. Archives with several loadable members (repo "
+         "lzxmerge) are outside the oracle: damage to one entry legitimately selects the next, intact and checked, member. "
+         "Correspondence is sampled, not exhaustive.",
     technique="Lean 4: decide+kernel over generated tables, induction, BitVec LFSR invariant for burst detection, gate lemmas for "
-              "arbitrary decoder; differential correspondence with link-level spies; exhaustive/sampled fault injection oracle",
+              "arbitrary decoder (byte-level container parsers with fuelled loops); differential correspondence with link-level "
+              "spies; exhaustive/sampled fault injection oracle; regression corpus",
     design_ref="DESIGN.md section 4 C08/C09, Appendix A.2",
 )
 
@@ -72,11 +97,23 @@ REQUIRED = [NS + n for n in (
     "C09_crc32_detects", "C09_crc16_detects", "C09_bzcrc_detects", "C09_crc32_detects_bytes", "C09_crc16_detects_bytes",
     "C09_gate_gzip", "C09_gate_zip", "C09_gate_zip_member", "C09_gate_bzip2", "C09_bzip2_stream_crc_unchecked", "C09_gate_xz", "C09_gate_arc", "C09_gate_arcfs", "C09_gate_lzx",
     "C09_reject_gzip", "C09_reject_gzip_field", "C09_reject_zip", "C09_reject_zip_field", "C09_reject_bzip2",
-    "C09_reject_xz", "C09_reject_xz_field", "C09_reject_arc", "C09_reject_arcfs", "C09_reject_lzx", "C09_reject")]
+    "C09_reject_xz", "C09_reject_xz_field", "C09_reject_arc", "C09_reject_arcfs", "C09_reject_lzx", "C09_reject",
+    # second wave: bzip2 stream CRC + combination rule, xz container byte level
+    "C09_bzip2_stream_crc_live", "C09_gate_bzip2_stream", "C09_bzip2_combine_injective", "C09_reject_bzip2_stream",
+    "C09_reject_bzip2_crc_field_flip",
+    "C09_gate_xz_stream", "C09_gate_xz_stream_payload", "C09_reject_xz_stream_burst", "C09_reject_xz_stream_field",
+    "C09_reject_xz_stream_flags",
+    # zip: the whole miniz reader
+    "C09_gate_zip_archive", "C09_reject_zip_archive", "C09_reject_zip_archive_field", "C09_gate_zip_eocd",
+    "C09_xz_index_matches_blocks")]
 
 WRAPS = ["-Wl,--wrap=libxmp_tinfl_decompress_mem_to_heap", "-Wl,--wrap=libxmp_arc_unpack", "-Wl,--wrap=lzx_unpack",
-         "-Wl,--wrap=libxmp_exclude_match"]
-GATE_FMTS = ("gzip", "arc", "arcfs", "lzx")
+         "-Wl,--wrap=libxmp_exclude_match", "-Wl,--wrap=xz_dec_lzma2_run", "-Wl,--wrap=xz_dec_lzma2_reset",
+         "-Wl,--wrap=libxmp_tinfl_decompress"]
+GATE_FMTS = ("gzip", "arc", "arcfs", "lzx", "xz", "zip")
+HARNESS_FMT = {"zip": "zipf"}       # name of the case in harness/c09_gates.c and Drv/C09.lean
+ALLBITS = ("crc32", "isize", "crc16", "csize", "usize", "entry", "hdr", "streamhdr", "blockhdr", "blockpad", "check", "index",
+           "footer", "blockdata", "eocd", "cdh", "lh", "datadesc")
 
 
 # --------------------------------------------------------------------------
@@ -234,7 +271,7 @@ def encoder_field_ties(ck, archives):
         elif a["fmt"] == "bzip2" and len(p) < 90000 and d[4:10] == b"\x31\x41\x59\x26\x53\x59":
             lines.append("bz " + (p.hex() or "-"))
             expect.append(("bzip2 block header", d[10:14].hex()))
-        elif a["fmt"] == "xz":
+        elif a["fmt"] == "xz" and "check" in a["fields"]:
             off = a["fields"]["check"][0]
             lines.append("crc32 00000000 " + (p.hex() or "-"))
             expect.append(("xz block check", "%08x" % struct.unpack("<I", d[off:off + 4])[0]))
@@ -266,7 +303,7 @@ def gate_cases(ck, arch, quick):
     faults = [("none",)]
     for name, (off, ln) in sorted(arch["fields"].items()):
         for o in range(off, min(off + ln, n)):
-            bits = range(8) if name in ("crc32", "isize", "crc16", "csize", "usize", "entry", "hdr") else [rng.randrange(8)]
+            bits = range(8) if (name in ALLBITS or re.sub(r"\d+(_head)?$", "", name) in ALLBITS) else [rng.randrange(8)]
             for b in bits:
                 faults.append(("flip", o, b))
     k = 40 if quick else 300
@@ -279,21 +316,35 @@ def gate_cases(ck, arch, quick):
     for t in range(1, 10):
         faults.append(("trunc", n - t))
     cap = 140 if quick else 500
+    if arch["fmt"] in ("xz", "zip"):
+        cap = 420 if quick else 2500
     if len(faults) > cap:
         head, tail = faults[:1], faults[1:]
         rng.shuffle(tail)
         faults = head + tail[:cap - 1]
+    # always kept (after the cap): edits that reach the checks behind the first line of defence
+    if arch["fmt"] == "xz":
+        faults += A.xz_consistent_edits(arch, rng, per_region=4 if quick else 40)
+    if arch["fmt"] == "zip" and arch.get("zip"):
+        c = arch["zip"]["cdh"]
+        for o in list(range(c + 8, c + 12)) + list(range(c + 20, c + 28)) + list(range(c + 42, c + 46)):
+            for v in (0x00, 0xFF):
+                if data[o] != v:
+                    faults.append(("sub", o, v))
     return faults
 
 
-def gate_correspondence(ck, orc, archives, quick):
+def gate_correspondence(ck, orc, archives, quick, jobs=None, label="gate_correspondence"):
     exe = vlib.build_harness("c09_gates", ["c09_gates.c"], extra=WRAPS)
-    todo = [a for a in archives if a["fmt"] in GATE_FMTS and len(a["data"]) <= 20000]
     stats = {"cases": 0, "real_accept": 0, "real_reject": 0, "accept_changed_payload": 0}
-    jobs = []
-    for a in todo:
-        fl = gate_cases(ck, a, quick)
-        jobs.append((a, fl))
+    if jobs is None:
+        todo = [a for a in archives if a["fmt"] in GATE_FMTS and len(a["data"]) <= 20000]
+        jobs = []
+        for a in todo:
+            fl = gate_cases(ck, a, quick)
+            jobs.append((a, fl))
+
+    lean_ok = ck.lean_ok
 
     def run(job):
         a, fl = job
@@ -302,24 +353,28 @@ def gate_correspondence(ck, orc, archives, quick):
         with open(cf, "w") as f:
             for x in fl:
                 b = A.apply_fault(a["data"], x)
-                f.write("%s %s\n" % (a["fmt"], b.hex() or "-"))
+                f.write("%s %s\n" % (HARNESS_FMT.get(a["fmt"], a["fmt"]), b.hex() or "-"))
         rc, out, err = vlib.run_exe(exe, [d, cf], timeout=1800)
         shutil.rmtree(d, ignore_errors=True)
-        return rc, out.decode("latin-1"), err
-    for (a, fl), (rc, out, err) in zip(jobs, vlib.pmap(run, jobs)):
+        out = out.decode("latin-1")
+        model = None
+        if rc == 0 and lean_ok:
+            # the model on the same cases, with the decoder tables the spies recorded (in the worker: drivers run in parallel)
+            drv_in = [l for l in out.splitlines() if not l.startswith("real ")]
+            model = vlib.run_driver("drv_c09", "\n".join(drv_in) + "\n", timeout=1800)
+        return rc, out, err, model
+    for (a, fl), (rc, out, err, model) in zip(jobs, vlib.pmap(run, jobs)):
         if rc != 0:
             ck.violation("harness-abort:c09_gates:" + vlib.sanitizer_signature(err),
                          {"fmt": a["fmt"], "archive_hex": a["data"].hex(), "stderr": err[-2000:]},
                          "depacker aborted under the gate harness (%s)" % a["fmt"])
             continue
         lines = out.splitlines()
-        drv_in = [l for l in lines if not l.startswith("real ")]
         reals = [l[5:] for l in lines if l.startswith("real ")]
         if len(reals) != len(fl):
             raise vlib.InfraError("c09_gates: %d answers for %d cases" % (len(reals), len(fl)))
-        if not ck.lean_ok:
+        if model is None:
             continue
-        model = vlib.run_driver("drv_c09", "\n".join(drv_in) + "\n", timeout=1800)
         if len(model) != len(reals):
             raise vlib.InfraError("drv_c09: %d answers for %d cases" % (len(model), len(reals)))
         for x, r, m in zip(fl, reals, model):
@@ -330,6 +385,12 @@ def gate_correspondence(ck, orc, archives, quick):
             if r == m:
                 ck.cov["traces_validated_against_impl"] += 1
                 continue
+            if x[0] == "msub":
+                # a CRC-consistent edit (outside the property's fault class): model tie only
+                ck.unproved("correspondence Gates.%sDepack vs %s depacker (CRC-consistent edit)" % (a["fmt"], a["fmt"]),
+                            "edit %s on %s/%s: real=%s model=%s ; archive=%s" % (x, a["fmt"], a["variant"], r[:80], m[:80],
+                                                                             a["data"].hex()[:4000]))
+                return stats
             # disagreement: ask the direct oracle whether the property itself fails on this case
             res, _ = orc.run_faults(a, [("none",), x])
             ref = A.md5hex(a["payload"]) if a["payload"] is not None else (res.get(0) or (1, None))[1]
@@ -344,7 +405,7 @@ def gate_correspondence(ck, orc, archives, quick):
                         "fault %s on %s/%s: real=%s model=%s ; archive=%s" % (x, a["fmt"], a["variant"], r[:80], m[:80],
                                                                          a["data"].hex()[:4000]))
             return stats
-    ck.note("gate_correspondence", stats)
+    ck.note(label, stats)
     return stats
 
 
@@ -376,7 +437,7 @@ def field_gate_ties(ck, orc, archives, quick):
         return
     n = 0
     for a in archives:
-        if a["payload"] is None or len(a["data"]) > 20000:
+        if a["payload"] is None or (len(a["data"]) > 20000 and a["fmt"] != "bzip2"):
             continue
         if a["fmt"] == "zip" and a.get("zip"):
             c = a["zip"]["cdh"]
@@ -419,7 +480,7 @@ def field_gate_ties(ck, orc, archives, quick):
                                 "fault %s: real load rc=%s, model=%s; archive=%s" % (faults[i], res[i][0], m[:60], a["data"].hex()[:3000]))
                     return
                 ck.cov["traces_validated_against_impl"] += 1
-        if a["fmt"] == "xz":
+        if a["fmt"] == "xz" and "blockhdr" in a["fields"]:
             d = a["data"]
             F = a["fields"]
             faults = [("none",)]
@@ -451,35 +512,114 @@ def field_gate_ties(ck, orc, archives, quick):
                 if res[i][0] != 0 and m.startswith("some") and faults[i][0] != "none":
                     ck.bump("xz_real_stricter_than_field_model")
                 ck.cov["traces_validated_against_impl"] += 1
-        if a["fmt"] == "bzip2" and len(a["payload"]) < 90000 and a["data"][4:10] == b"\x31\x41\x59\x26\x53\x59":
+        if a["fmt"] == "bzip2":
             d = a["data"]
-            # single block: header CRC at 10..13 (byte aligned); stream CRC: last 32 bits before the padding, bit aligned
-            eos = find_bz_eos(d)
-            if eos is None:
+            lay = a.get("bz") or A.bz_layout(d, a["payload"])
+            if lay is None:
+                ck.bump("bzip2_layout_not_established")
                 continue
-            faults = [("none",)] + [("flip", o, b) for o in range(10, 14) for b in range(8)]
-            faults += [("flip", (eos + 48 + k) // 8, 7 - ((eos + 48 + k) % 8)) for k in range(32)]
+            # header CRC of every block and the stream CRC: 32 bits each, bit aligned (MSB first)
+            crc_bits = [o + 48 for o in lay["block_bits"]] + [lay["eos_bit"] + 48]
+            multi = len(lay["parts"]) > 1
+            faults = [("none",)]
+            for fb in crc_bits:
+                ks = range(32) if not (multi and quick) else sorted(ck.rng.sample(range(32), 3))
+                faults += [("flip", (fb + k) // 8, 7 - ((fb + k) % 8)) for k in ks]
             res, crashes = orc.run_faults(a, faults)
             lines, idx = [], []
             for i, x in enumerate(faults):
                 if i not in res:
                     continue
-                b = A.apply_fault(d, x)
-                hc = b[10:14].hex()
-                v = int.from_bytes(b, "big")
-                nb = len(b) * 8
-                sc = (v >> (nb - (eos + 48) - 32)) & 0xFFFFFFFF
-                lines.append("bzg %08x %s %s" % (sc, hc, a["payload"].hex() or "-"))
+                lines.append(bz_model_line(A.apply_fault(d, x), lay))
                 idx.append(i)
-            out = vlib.run_driver("drv_c09", "\n".join(lines) + "\n") if lines else []
+            out = vlib.run_driver("drv_c09", "\n".join(lines) + "\n", timeout=1800) if lines else []
             for i, m in zip(idx, out):
                 n += 1
+                if multi:
+                    ck.bump("bzip2_multiblock_tie_cases")
                 if (res[i][0] == 0) != m.startswith("some"):
                     ck.unproved("correspondence Gates.bzDepack vs bunzip2.c",
-                                "fault %s: real load rc=%s, model=%s; archive=%s" % (faults[i], res[i][0], m[:60], d.hex()[:3000]))
+                                "fault %s (%d blocks): real load rc=%s, model=%s; archive=%s" % (
+                                    faults[i], len(lay["parts"]), res[i][0], m[:60], d.hex()[:3000]))
                     return
                 ck.cov["traces_validated_against_impl"] += 1
     ck.note("field_gate_ties", n)
+
+
+def bz_model_line(b, lay):
+    """`bzg` driver line for the (possibly damaged) file bytes `b`: CRC fields re-read at the known bit offsets"""
+    crc_bits = [o + 48 for o in lay["block_bits"]] + [lay["eos_bit"] + 48]
+    v = int.from_bytes(b, "big")
+    nb = len(b) * 8
+    get = lambda off: (v >> (nb - off - 32)) & 0xFFFFFFFF
+    toks = ["bzg", "%08x" % get(crc_bits[-1])]
+    for fb, p in zip(crc_bits[:-1], lay["parts"]):
+        toks += ["%08x" % get(fb), p.hex() or "-"]
+    return " ".join(toks)
+
+
+def corpus_first(ck, orc):
+    """corpus/C09: minimised regression cases (past defects, mutations), run before anything else:
+    direct oracle on every case, model correspondence where a gate model covers the format."""
+    import c09_corpus
+    cases = c09_corpus.load_cases()
+    st = {"cases": len(cases), "oracle_ok": 0, "model_ok": 0, "drift": 0}
+    gate_jobs = []
+    for c in cases:
+        a = {"name": c["name"], "data": c["data"], "fmt": c["fmt"], "fields": {}, "variant": "corpus:" + c["id"],
+             "payload": None, "crc16": c["fmt"] in ("arc", "arcfs")}
+        want = c.get("payload_md5")
+        fl = [("none",)] + ([c["fault"]] if c["fault"] != ("none",) else [])
+        res, crashes = orc.run_faults(a, fl)
+        ck.count(("corpus", c["id"]), nontrivial=True)
+        for at, sig, err in crashes:
+            ck.violation("corpus:%s:crash:%s" % (c["id"], sig), dict(replay_obj(a, fl[min(at, len(fl) - 1)], want, None), stderr=err),
+                         "corpus case %s (%s) aborts: %s" % (c["id"], c["why"], sig))
+        if crashes:
+            continue
+        if want is None:
+            # a file of /repo that must not load (libxmp's own corrupted sample)
+            if res.get(0, (1, None))[0] == 0:
+                ck.violation("corpus:%s" % c["id"], replay_obj(a, ("none",), None, res.get(0)),
+                             "corpus case %s loads although it must be refused (%s)" % (c["id"], c["why"]))
+            else:
+                st["oracle_ok"] += 1
+            continue
+        if res.get(0) != (0, want):
+            ck.violation("corpus-baseline:%s" % c["id"], replay_obj(a, ("none",), want, res.get(0)),
+                         "intact archive of corpus case %s does not load to its payload: %s" % (c["id"], res.get(0)))
+            continue
+        got = res.get(1)
+        if got is None:
+            continue
+        if got[0] == 0 and got[1] != want:
+            ck.violation("corpus:%s" % c["id"], replay_obj(a, c["fault"], want, got),
+                         "corpus case %s: %s archive with fault %s loads with a DIFFERENT payload (md5 %s, packed %s) -- %s" % (
+                             c["id"], c["fmt"], c["fault"], got[1], want, c["why"]))
+            continue
+        st["oracle_ok"] += 1
+        if (c["expect"] == "reject") != (got[0] != 0):
+            st["drift"] += 1          # allowed by the property (identical payload / refusal), but not what was recorded
+        if c["fmt"] in GATE_FMTS:
+            gate_jobs.append((a, fl))
+        elif c["fmt"] == "bzip2" and ck.lean_ok:
+            rc, stream = orc.unpack(c["name"], c["data"])
+            lay = A.bz_layout(c["data"], stream) if stream else None
+            if lay is None:
+                continue
+            out = vlib.run_driver("drv_c09", "\n".join(bz_model_line(A.apply_fault(c["data"], x), lay) for x in fl) + "\n")
+            for x, m in zip(fl, out):
+                real_ok = res[fl.index(x)][0] == 0
+                if real_ok != m.startswith("some"):
+                    ck.unproved("correspondence Gates.bzDepack vs bunzip2.c (corpus %s)" % c["id"],
+                                "fault %s: real load rc=%s, model=%s" % (x, res[fl.index(x)][0], m[:60]))
+                    break
+                st["model_ok"] += 1
+                ck.cov["traces_validated_against_impl"] += 1
+    if gate_jobs:
+        g = gate_correspondence(ck, orc, None, True, jobs=gate_jobs, label="corpus_gate_correspondence")
+        st["model_ok"] += g["cases"]
+    ck.note("corpus", st)
 
 
 def find_bz_eos(d):
@@ -529,6 +669,18 @@ def build_archives(ck, orc, quick):
     seeds = A.seed_archives()
     for a in seeds:
         a["pname"] = "repo"
+    # gate-correspondence-only archives (no implemented check): xz check types none / CRC64 / SHA-256
+    for pname, p in payloads[:2]:
+        for a in A.xz_gate_only(rng, p):
+            a["pname"] = pname
+            seeds.append(a)
+    # one multi-block bzip2 stream (>= 3 blocks at level 1) for the stream-CRC combination rule
+    big = A.synth_mod_big(rng)
+    a = A.make_bz2_multi(rng, big)
+    if a is not None:
+        a["pname"] = "synth-big"
+        a["budget"] = (40, 10, 10) if quick else (400, 100, 60)
+        archives.append(a)
     ck.note("payloads", [(n, len(p)) for n, p in payloads])
     return archives, seeds
 
@@ -538,7 +690,7 @@ def oracle(ck, orc, archives, quick):
     stats = {}
     jobs = []
     for a in archives:
-        fl = A.gen_faults(a, tier, ck.rng)
+        fl = A.gen_faults(a, tier, ck.rng, budget=a.get("budget"))
         # split into chunks so that all cores are busy; every chunk re-measures the reference
         body = fl[1:]
         step = 400
@@ -614,16 +766,31 @@ def run(ck):
     # 3 harnesses
     cexe = vlib.build_harness("c09_corrupt", ["c09_corrupt.c"])
     work = mkwork()
+    import time
+    phases, t0 = {}, time.time()
+
+    def lap(name):
+        nonlocal t0
+        phases[name] = round(time.time() - t0, 1)
+        t0 = time.time()
     try:
         orc = Oracle(cexe, work)
+        corpus_first(ck, orc)
+        lap("corpus")
         crc_correspondence(ck, quick)
+        lap("crc")
         archives, seeds = build_archives(ck, orc, quick)
         encoder_field_ties(ck, archives)
+        lap("archives")
         gate_correspondence(ck, orc, archives + seeds, quick)
+        lap("gates")
         field_gate_ties(ck, orc, archives, quick)
+        lap("field_ties")
         skipped = [a["variant"] for a in seeds if not a.get("oracle", True)]
         ck.note("seed_archives_outside_oracle_scope", skipped)
         st = oracle(ck, orc, archives + [a for a in seeds if a.get("oracle", True)], quick)
+        lap("oracle")
+        ck.note("phase_seconds", phases)
     finally:
         shutil.rmtree(work, ignore_errors=True)
     ck.sample({"formats": sorted(st), "example_fault_counts": {k: v["faults"] for k, v in st.items()}})
